@@ -400,3 +400,156 @@ Example C02_nonvacuous :
   /\ k_inter [(0, 10); (20, 30)] [(5, 25); (30, 40)] = [(5, 10); (20, 25)]
   /\ k_diff [(0, 10); (20, 30)] [(5, 25); (30, 40)] = [(0, 5); (25, 30)].
 Proof. vm_compute. intuition congruence. Qed.
+
+
+(* ====================================================================================================
+   Boolean-algebra laws of the COMPOSED kernels (one kernel's raw output re-entering another), pointwise,
+   for every instant that is not an endpoint of an operand.  Each is a corollary of the three membership
+   theorems and of the canonicity of the raw intersect / set_diff outputs; they are what a user relies on
+   when chaining set operations (epochs.intersect(a).set_diff(b) ...). *)
+
+Definition no_endpoint (x : Z) (A : iset) : Prop := ~ InterDiffProofs.endpoint x A.
+
+Lemma touch_endpoint_l x A B : touch_point x A B -> InterDiffProofs.endpoint x A.
+Proof. unfold touch_point, InterDiffProofs.endpoint. tauto. Qed.
+Lemma touch_endpoint_r x A B : touch_point x A B -> InterDiffProofs.endpoint x B.
+Proof. unfold touch_point, InterDiffProofs.endpoint. tauto. Qed.
+
+Lemma alg_partition A B x : canonical A -> canonical B -> no_endpoint x B ->
+  mem x (k_inter A B) || mem x (k_diff A B) = mem x A
+  /\ mem x (k_inter A B) && mem x (k_diff A B) = false.
+Proof.
+  intros Ha Hb Hx.
+  rewrite (inter_mem A B x Ha Hb) by (intro T; apply Hx; eapply touch_endpoint_r; exact T).
+  rewrite (diff_mem A B x Ha Hb Hx).
+  destruct (mem x A), (mem x B); split; reflexivity.
+Qed.
+
+Lemma alg_inter_assoc A B C x : canonical A -> canonical B -> canonical C ->
+  no_endpoint x A -> no_endpoint x B -> no_endpoint x C ->
+  mem x (k_inter (k_inter A B) C) = mem x (k_inter A (k_inter B C))
+  /\ mem x (k_inter (k_inter A B) C) = mem x A && mem x B && mem x C.
+Proof.
+  intros Ha Hb Hc Xa Xb Xc.
+  pose proof (inter_raw_canonical A B Ha Hb) as Hab. pose proof (inter_raw_canonical B C Hb Hc) as Hbc.
+  rewrite (inter_mem (k_inter A B) C x Hab Hc) by (intro T; apply Xc; eapply touch_endpoint_r; exact T).
+  rewrite (inter_mem A (k_inter B C) x Ha Hbc) by (intro T; apply Xa; eapply touch_endpoint_l; exact T).
+  rewrite (inter_mem A B x Ha Hb) by (intro T; apply Xa; eapply touch_endpoint_l; exact T).
+  rewrite (inter_mem B C x Hb Hc) by (intro T; apply Xb; eapply touch_endpoint_l; exact T).
+  destruct (mem x A), (mem x B), (mem x C); split; reflexivity.
+Qed.
+
+Lemma alg_diff_diff A B C x : canonical A -> canonical B -> canonical C ->
+  no_endpoint x B -> no_endpoint x C ->
+  mem x (k_diff (k_diff A B) C) = mem x A && negb (mem x B || mem x C)
+  /\ mem x (k_diff (k_diff A B) C) = mem x (k_diff (k_diff A C) B).
+Proof.
+  intros Ha Hb Hc Xb Xc.
+  pose proof (diff_raw_canonical A B Ha Hb) as Hab. pose proof (diff_raw_canonical A C Ha Hc) as Hac.
+  rewrite (diff_mem (k_diff A B) C x Hab Hc Xc), (diff_mem A B x Ha Hb Xb).
+  rewrite (diff_mem (k_diff A C) B x Hac Hb Xb), (diff_mem A C x Ha Hc Xc).
+  destruct (mem x A), (mem x B), (mem x C); split; reflexivity.
+Qed.
+
+Lemma alg_distrib A B C x : canonical A -> canonical B -> canonical C ->
+  no_endpoint x A -> no_endpoint x B -> no_endpoint x C ->
+  mem x (k_union (k_inter A B) (k_inter A C)) = mem x A && (mem x B || mem x C).
+Proof.
+  intros Ha Hb Hc Xa Xb Xc.
+  rewrite (union_mem _ _ x (inter_raw_canonical A B Ha Hb) (inter_raw_canonical A C Ha Hc)).
+  rewrite (inter_mem A B x Ha Hb) by (intro T; apply Xa; eapply touch_endpoint_l; exact T).
+  rewrite (inter_mem A C x Ha Hc) by (intro T; apply Xa; eapply touch_endpoint_l; exact T).
+  destruct (mem x A), (mem x B), (mem x C); reflexivity.
+Qed.
+
+Lemma alg_union_diff A B x : canonical A -> canonical B -> no_endpoint x A ->
+  mem x (k_union A (k_diff B A)) = mem x A || mem x B.
+Proof.
+  intros Ha Hb Xa.
+  rewrite (union_mem _ _ x Ha (diff_raw_canonical B A Hb Ha)), (diff_mem B A x Hb Ha Xa).
+  destruct (mem x A), (mem x B); reflexivity.
+Qed.
+
+Lemma alg_symdiff A B x : canonical A -> canonical B -> no_endpoint x A -> no_endpoint x B ->
+  mem x (k_union (k_diff A B) (k_diff B A)) = xorb (mem x A) (mem x B).
+Proof.
+  intros Ha Hb Xa Xb.
+  rewrite (union_mem _ _ x (diff_raw_canonical A B Ha Hb) (diff_raw_canonical B A Hb Ha)).
+  rewrite (diff_mem A B x Ha Hb Xb), (diff_mem B A x Hb Ha Xa).
+  destruct (mem x A), (mem x B); reflexivity.
+Qed.
+
+Lemma alg_diff_inter_disjoint A B x : canonical A -> canonical B -> no_endpoint x B ->
+  mem x (k_inter (k_diff A B) B) = false /\ mem x (k_diff (k_inter A B) B) = false.
+Proof.
+  intros Ha Hb Xb. split.
+  - rewrite (inter_mem _ B x (diff_raw_canonical A B Ha Hb) Hb) by (intro T; apply Xb; eapply touch_endpoint_r; exact T).
+    rewrite (diff_mem A B x Ha Hb Xb). destruct (mem x A), (mem x B); reflexivity.
+  - rewrite (diff_mem _ B x (inter_raw_canonical A B Ha Hb) Hb Xb).
+    rewrite (inter_mem A B x Ha Hb) by (intro T; apply Xb; eapply touch_endpoint_r; exact T).
+    destruct (mem x A), (mem x B); reflexivity.
+Qed.
+
+Lemma alg_absorption A B x : canonical A -> canonical B -> no_endpoint x A ->
+  mem x (k_union A (k_inter A B)) = mem x A.
+Proof.
+  intros Ha Hb Xa.
+  rewrite (union_mem _ _ x Ha (inter_raw_canonical A B Ha Hb)).
+  rewrite (inter_mem A B x Ha Hb) by (intro T; apply Xa; eapply touch_endpoint_l; exact T).
+  destruct (mem x A), (mem x B); reflexivity.
+Qed.
+
+Example alg_nonvacuous :
+  canonical [(0, 10); (20, 30)] /\ canonical [(5, 25)] /\ canonical [(8, 22)]
+  /\ no_endpoint 9 [(0, 10); (20, 30)] /\ no_endpoint 9 [(5, 25)] /\ no_endpoint 9 [(8, 22)]
+  /\ k_inter (k_inter [(0, 10); (20, 30)] [(5, 25)]) [(8, 22)] = [(8, 10); (20, 22)]
+  /\ k_diff (k_diff [(0, 10); (20, 30)] [(8, 22)]) [(5, 25)] = [(0, 5); (25, 30)]
+  /\ k_union (k_diff [(0, 10); (20, 30)] [(5, 25)]) (k_diff [(5, 25)] [(0, 10); (20, 30)]) = [(0, 5); (10, 20); (25, 30)].
+Proof.
+  vm_compute. repeat split; try reflexivity; try tauto; intros [H|H]; simpl in H; intuition congruence.
+Qed.
+
+(* --- the composed-kernel laws as property theorems --- *)
+Theorem C02_alg_partition : forall A B x, canonical A -> canonical B -> no_endpoint x B ->
+  mem x (k_inter A B) || mem x (k_diff A B) = mem x A /\ mem x (k_inter A B) && mem x (k_diff A B) = false.
+Proof. exact alg_partition. Qed.
+Print Assumptions C02_alg_partition.
+
+Theorem C02_alg_inter_assoc : forall A B C x, canonical A -> canonical B -> canonical C ->
+  no_endpoint x A -> no_endpoint x B -> no_endpoint x C ->
+  mem x (k_inter (k_inter A B) C) = mem x (k_inter A (k_inter B C))
+  /\ mem x (k_inter (k_inter A B) C) = mem x A && mem x B && mem x C.
+Proof. exact alg_inter_assoc. Qed.
+Print Assumptions C02_alg_inter_assoc.
+
+Theorem C02_alg_diff_diff : forall A B C x, canonical A -> canonical B -> canonical C -> no_endpoint x B -> no_endpoint x C ->
+  mem x (k_diff (k_diff A B) C) = mem x A && negb (mem x B || mem x C)
+  /\ mem x (k_diff (k_diff A B) C) = mem x (k_diff (k_diff A C) B).
+Proof. exact alg_diff_diff. Qed.
+Print Assumptions C02_alg_diff_diff.
+
+Theorem C02_alg_distrib : forall A B C x, canonical A -> canonical B -> canonical C ->
+  no_endpoint x A -> no_endpoint x B -> no_endpoint x C ->
+  mem x (k_union (k_inter A B) (k_inter A C)) = mem x A && (mem x B || mem x C).
+Proof. exact alg_distrib. Qed.
+Print Assumptions C02_alg_distrib.
+
+Theorem C02_alg_union_diff : forall A B x, canonical A -> canonical B -> no_endpoint x A ->
+  mem x (k_union A (k_diff B A)) = mem x A || mem x B.
+Proof. exact alg_union_diff. Qed.
+Print Assumptions C02_alg_union_diff.
+
+Theorem C02_alg_symdiff : forall A B x, canonical A -> canonical B -> no_endpoint x A -> no_endpoint x B ->
+  mem x (k_union (k_diff A B) (k_diff B A)) = xorb (mem x A) (mem x B).
+Proof. exact alg_symdiff. Qed.
+Print Assumptions C02_alg_symdiff.
+
+Theorem C02_alg_diff_inter_disjoint : forall A B x, canonical A -> canonical B -> no_endpoint x B ->
+  mem x (k_inter (k_diff A B) B) = false /\ mem x (k_diff (k_inter A B) B) = false.
+Proof. exact alg_diff_inter_disjoint. Qed.
+Print Assumptions C02_alg_diff_inter_disjoint.
+
+Theorem C02_alg_absorption : forall A B x, canonical A -> canonical B -> no_endpoint x A ->
+  mem x (k_union A (k_inter A B)) = mem x A.
+Proof. exact alg_absorption. Qed.
+Print Assumptions C02_alg_absorption.
